@@ -1,5 +1,5 @@
 """property -> rules registry (claimed properties only)"""
-from . import rules_state, rules_arith, rules_except, rules_guard
+from . import rules_state, rules_arith, rules_except, rules_guard, rules_slice, rules_types
 
 RULES = {
     "P1": rules_state.rule_P1,
@@ -10,16 +10,52 @@ RULES = {
     "E1": rules_except.rule_E1,
     "G1": rules_guard.rule_G1,
     "G2": rules_guard.rule_G2,
+    "G3": rules_slice.rule_G3,
+    "G3b": rules_slice.rule_G3b,
+    "G4": rules_slice.rule_G4,
+    "G5": rules_slice.rule_G5,
+    "T1": rules_types.rule_T1,
+    "T1c": rules_types.rule_T1c,
 }
 
+SELFTESTS = {"T1": rules_types.selftest_T1}
+
 PROPS = {
+    "C03": {
+        "id": "C03",
+        "title": "Element-wise array arithmetic, type promotion and value semantics",
+        "rules": ["T1", "T1c", "G2"],
+        "clause": "the result type of every operator x operand-type pairing (112 binary pairings, compound forms, unary, "
+                  "concatenation, selection) is the promoted one and type-changing compound forms do not compile; the length "
+                  "guard of the compound array operators is a live throwing check dominating every element write; non-compound "
+                  "operators cannot modify their operands and copies own their storage",
+        "not_decided": "the element-wise values (field formulas), the contents of concatenation and selection results",
+        "explanation": "T1 compiles one generated unit per witness against the repository's headers (the C++ type checker is the "
+                       "analyser; nothing is executed); T1c checks the declared shape of base_array/cmplx_t and every operator "
+                       "signature; G2 (restricted to this property: the four compound array operators) checks guard dominance on the CFG.",
+    },
+    "C04": {
+        "id": "C04",
+        "title": "Slices select and assign exactly the numpy-designated elements",
+        "rules": ["G5", "G3", "G3b", "G4", "E1", "T1"],
+        "clause": "slice creation rejects by exception every out-of-range start/stop/step combination of the statement; every "
+                  "multi-element slice assignment is count-guarded before the first write; no forward copy primitive runs on "
+                  "possibly-aliased storage; a slice copy carries the source's index state; materialising a slice cannot "
+                  "terminate the process; const slices are not assignable",
+        "not_decided": "the index-resolution arithmetic against Python's x[i1:i2:step] (element count, negative indices)",
+        "explanation": "G5 normalises the live throwing guards of base_slice_t's constructor to interval literals and checks the "
+                       "eight required rejections on all paths to the normal exit; G3/G3b work on the CFG of every "
+                       "slice_t::operator=; G4 derives the parameter->field map of base_slice_t and checks every slice copy "
+                       "constructor against it; E1 is whole-program noexcept->throw reachability; T1 holds the compile-fail witnesses.",
+    },
     "C05": {
         "id": "C05",
         "title": "No call corrupts memory or hangs: misuse is reported by exception",
-        "rules": ["G1", "G2", "E1"],
+        "rules": ["G1", "G2", "G3", "G5", "E1"],
         "clause": "guard completeness (mechanisms 1-3 of the anchors): every plan solve() checks the input length with a live "
                   "check before mixing it with plan tables; every foreign-bound subscript and caller-supplied index in a public "
-                  "function is dominated by a live relating guard; no noexcept function can reach a library throw",
+                  "function is dominated by a live relating guard; slices are range-checked at creation and count-checked at "
+                  "assignment; no noexcept function can reach a library throw",
         "not_decided": "value-range safety of index arithmetic inside kernels (twiddle indices, polyphase offsets), termination "
                        "and complexity (except the C15 clause)",
         "explanation": "G1 enumerates every solve() of every plan class with delegation closure over the call graph (virtual calls "
